@@ -303,13 +303,22 @@ Proof.
   split; [apply (nodup_adel ukey_eqb ukey_eqb_spec); exact Pp|exact Ps].
 Qed.
 
-Lemma handler_wf s h u b : wf s -> wf (fst (handler true s h u b)).
+Lemma read_source_none m : read_source reports_none m <> ReadFails.
+Proof. destruct m as [|[] w]; discriminate. Qed.
+
+Lemma handler_wf s h u b : wf s -> wf (fst (handler true reports_none s h u b)).
 Proof.
-  intro H. unfold handler. destruct h.
+  intro H. unfold handler.
+  destruct h; [destruct (read_source reports_none (pmode s)); [| |exact H]..|].
+  - destruct (load s u) as [[fd fc] cur]. destruct fc; [exact H|].
+    destruct (writable s); [apply wf_save|]; exact H.
   - destruct (load s u) as [[fd fc] cur]. destruct fc; [exact H|].
     destruct (writable s); [apply wf_save|]; exact H.
   - destruct (load s u) as [[fd fc] cur]. destruct fd; [|exact H]. destruct fc; [exact H|].
     destruct (writable s); [apply wf_save|]; exact H.
+  - destruct (load s u) as [[fd fc] cur]. destruct fd; [|exact H]. destruct fc; [exact H|].
+    destruct (writable s); [apply wf_save|]; exact H.
+  - exact H.
   - exact H.
   - destruct (writable s); [apply wf_deluser|]; exact H.
 Qed.
@@ -334,8 +343,9 @@ Proof.
     + apply wf_with_cache; [apply cleanup_wf; apply Hwf|]. apply wf_with_primary; [apply cleanup_wf; apply Hwf|exact Hwf].
     + apply wf_with_cache; [apply cleanup_wf; apply Hwf|exact Hwf].
   - (* SetMode *) exact Hwf.
-  - (* Load *) destruct (load s u) as [[a b] c]. exact Hwf.
-  - (* GetS *) destruct (get_signed s u t); exact Hwf.
+  - (* Load *) destruct (read_source reports_none (pmode s)); try exact Hwf; destruct (load s u) as [[a b] c]; exact Hwf.
+  - (* GetS *) destruct (read_source reports_none (pmode s)); try exact Hwf; destruct (get_signed s u t); exact Hwf.
+  - (* Users *) destruct (read_source reports_none (pmode s)); exact Hwf.
 Qed.
 
 Lemma run_wf ops : forall s, wf s -> wf (fst (run s ops)).
@@ -366,9 +376,9 @@ Proof.
 Qed.
 
 (* ... and, the primary being reachable, an un-faulted synchronisation does return nil *)
-Lemma sync_completes s : pmode s <> Dead -> snd (step s (Sync None)) = OSync true.
+Lemma sync_completes s : writable s = true -> snd (step s (Sync None)) = OSync true.
 Proof.
-  intro H. unfold step, step_gen, writable. destruct (pmode s); try congruence; simpl; rewrite sync_none; reflexivity.
+  intro H. unfold step, step_gen. rewrite H, sync_none. reflexivity.
 Qed.
 
 (* a fault at any statement: the cache is the old one or the one of the completed copy *)
@@ -392,7 +402,7 @@ Lemma outage_reads s u : pmode s <> Up ->
                         | None => OLoad false true 0%N
                         end).
 Proof.
-  intro H. unfold step, step_gen, load. destruct (pmode s); try congruence; simpl;
+  intro H. unfold step, step_gen, load. destruct (pmode s) as [|[] w]; try congruence; simpl;
     destruct (aget ukey_eqb u (profiles (cache s))); reflexivity.
 Qed.
 
@@ -402,8 +412,14 @@ Lemma outage_reads_signed s u t : pmode s <> Up ->
                           | None => OSigned false 0%N
                           end).
 Proof.
-  intro H. unfold step, step_gen, get_signed. destruct (pmode s); try congruence; simpl;
+  intro H. unfold step, step_gen, get_signed. destruct (pmode s) as [|[] w]; try congruence; simpl;
     (destruct (aget skey_eqb (u, t) (signed (cache s))) as [r|]; [destruct (unexpired (now s) r)|]; reflexivity).
+Qed.
+
+Lemma outage_reads_users s : pmode s <> Up ->
+  step s Users = (s, OUsers true (map fst (profiles (cache s)))).
+Proof.
+  intro H. unfold step, step_gen, users. destruct (pmode s) as [|[] w]; try congruence; reflexivity.
 Qed.
 
 (* after a completed copy, the cache answers every load exactly as the primary would *)
@@ -426,12 +442,14 @@ Lemma outage_writes s h u b : pmode s <> Up ->
   (forall u', aget ukey_eqb u' (profiles (primary s')) = aget ukey_eqb u' (profiles (primary s)) \/
               (h = HDelete /\ u' = u /\ aget ukey_eqb u' (profiles (primary s')) = None)) /\
   (h = HMutate -> o = ORefused) /\
-  (pmode s = Dead -> primary s' = primary s).
+  (h = HAuthSave \/ h = HRead -> o = OServed \/ (h = HAuthSave /\ o = ORefused /\ aget ukey_eqb u (profiles (cache s)) = None)) /\
+  (writable s = false -> primary s' = primary s).
 Proof.
   intro H. unfold step, step_gen, handler, load, writable.
-  destruct h; destruct (pmode s) eqn:M; try congruence; simpl;
-    try (destruct (aget ukey_eqb u (profiles (cache s))); simpl);
-    repeat split; auto; try congruence.
+  destruct h; destruct (pmode s) as [|[] w] eqn:M; try congruence; simpl;
+    try (destruct (aget ukey_eqb u (profiles (cache s))) eqn:G; simpl);
+    try (destruct w; simpl);
+    repeat split; auto; try congruence; try tauto; try (intros [X|X]; congruence).
   all: intro u'; destruct (N.eq_dec u' u) as [->|Hne];
     [right; repeat split; apply (aget_adel_same ukey_eqb)
     |left; apply (aget_adel_other ukey_eqb ukey_eqb_spec); congruence].
@@ -439,14 +457,19 @@ Qed.
 
 (* with the primary truly unreachable nothing changes anywhere, whatever is attempted
    (Cleanup still purges expired rows of the local cache) *)
-Lemma dead_frozen s o : pmode s = Dead -> (forall m, o <> SetMode m) ->
+Lemma dead_frozen s o : writable s = false -> (forall m, o <> SetMode m) ->
   primary (fst (step s o)) = primary s /\ (o <> Cleanup -> cache (fst (step s o)) = cache s).
 Proof.
-  intros M Hm. destruct o; unfold step, step_gen, handler, load, writable; rewrite ?M; simpl; auto.
+  intros M Hm. destruct o; unfold step, step_gen, handler; rewrite ?M; simpl; auto.
   - split; [reflexivity|congruence].
-  - destruct (aget ukey_eqb u (profiles (cache s))); auto.
-  - destruct (get_signed s u t); auto.
-  - destruct h; simpl; auto; destruct (aget ukey_eqb u (profiles (cache s))); simpl; auto.
+  - destruct (read_source reports_none (pmode s)); auto; destruct (load s u) as [[a b] c]; auto.
+  - destruct (read_source reports_none (pmode s)); auto; destruct (get_signed s u t); auto.
+  - destruct (read_source reports_none (pmode s)); auto.
+  - assert (load s u = (match aget ukey_eqb u (profiles (cache s)) with Some b => (true, true, b) | None => (false, true, 0%N) end)) as L.
+    { unfold load. unfold writable in M. destruct (pmode s) as [|k w]; [discriminate|]. simpl.
+      destruct (aget ukey_eqb u (profiles (cache s))); reflexivity. }
+    destruct h; simpl; auto; destruct (read_source reports_none (pmode s)); simpl; auto; rewrite L;
+      destruct (aget ukey_eqb u (profiles (cache s))); simpl; auto.
 Qed.
 
 Lemma load_up s u : pmode s = Up ->
@@ -460,12 +483,17 @@ Lemma roundtrip s u b : pmode s = Up ->
   snd (step (fst (step s (Save u b))) (Load u)) = OLoad true false b /\
   (forall u', u' <> u -> snd (step (fst (step s (Save u b))) (Load u')) = snd (step s (Load u'))).
 Proof.
-  intro M. unfold step, step_gen, writable. rewrite M. cbn [mode_eqb negb fst].
+  intro M.
   assert (pmode (save s u b) = Up) as M' by exact M.
-  split.
-  - rewrite (load_up _ u M'). unfold save, with_primary, set_profiles. cbn [primary profiles].
+  assert (forall x v, pmode x = Up -> snd (step x (Load v)) = let '(f, c, d) := load x v in OLoad f c d) as L.
+  { intros x v Mx. unfold step, step_gen. rewrite Mx. cbn [read_source].
+    destruct (load x v) as [[f c] d]. reflexivity. }
+  assert (fst (step s (Save u b)) = save s u b) as S.
+  { unfold step, step_gen, writable. rewrite M. reflexivity. }
+  rewrite S. split.
+  - rewrite L by exact M'. rewrite (load_up _ u M'). unfold save, with_primary, set_profiles. cbn [primary profiles].
     rewrite (aget_aset_same ukey_eqb ukey_eqb_spec). reflexivity.
-  - intros u' Hne. rewrite (load_up _ u' M'), (load_up _ u' M).
+  - intros u' Hne. rewrite L by exact M'. rewrite L by exact M. rewrite (load_up _ u' M'), (load_up _ u' M).
     unfold save, with_primary, set_profiles. cbn [primary profiles].
     rewrite (aget_aset_other ukey_eqb ukey_eqb_spec) by congruence.
     destruct (aget ukey_eqb u' (profiles (primary s))); reflexivity.
@@ -501,7 +529,7 @@ Lemma gets_out s u t :
                             | Some r => OSigned true (sr_data r)
                             | None => OSigned false 0%N
                             end.
-Proof. unfold step, step_gen. destruct (get_signed s u t); reflexivity. Qed.
+Proof. unfold step, step_gen. destruct (pmode s) as [|[] w]; simpl; destruct (get_signed s u t); reflexivity. Qed.
 
 Lemma cleanup_invisible ops u t :
   snd (step (fst (step (final ops) Cleanup)) (GetS u t)) = snd (step (final ops) (GetS u t)).
@@ -577,3 +605,34 @@ Lemma old_cleanup_refuted :
   let s := fst (run_old false init [Upsert 1 1 5 10%Z; Tick 100%Z; Cleanup]) in
   aget skey_eqb (1, 1) (signed (primary s)) = Some (mk_srow 5 10%Z 0%Z).
 Proof. vm_compute. reflexivity. Qed.
+
+(* before the repair of the read path a failed query / row fetch of the primary was put on the
+   channel and returned to the caller: the cache holds the profile, the signed record and the user
+   list, and still every read fails and the second-factor check answers with an error — whether
+   or not writes would still go through.  The repaired machine answers from the cache. *)
+Definition old_outage_history (k : rfail) (w : bool) : list op :=
+  [Save 1 10; Upsert 1 1 5 1000%Z; Sync None; SetMode (Out k w)].
+
+Lemma old_outage_reported_refuted k w : k = RQuery \/ k = RScan ->
+  let s := fst (run init (old_outage_history k w)) in
+  snd (step_reporting s (Load 1)) = OErr /\ snd (step_reporting s (GetS 1 1)) = OErr /\
+  snd (step_reporting s Users) = OErr /\ snd (step_reporting s (Handler HAuthSave 1 12)) = OErr /\
+  snd (step s (Load 1)) = OLoad true true 10 /\ snd (step s (GetS 1 1)) = OSigned true 5 /\
+  snd (step s Users) = OUsers true [1] /\ snd (step s (Handler HAuthSave 1 12)) = OServed.
+Proof. intros [-> | ->]; destruct w; vm_compute; repeat split; reflexivity. Qed.
+
+Local Close Scope N_scope.
+Local Open Scope Z_scope.
+
+(* a read of a signed record never returns an expired row, whichever store answers and whatever
+   happened before (purged or not) *)
+Lemma reads_unexpired s u t d :
+  snd (step s (GetS u t)) = OSigned true d ->
+  exists r, aget skey_eqb (u, t) (signed (if mode_eqb (pmode s) Up then primary s else cache s)) = Some r /\
+            sr_data r = d /\ now s < sr_exp r.
+Proof.
+  rewrite gets_out. unfold get_signed.
+  destruct (aget skey_eqb (u, t) (signed (if mode_eqb (pmode s) Up then primary s else cache s))) as [r|]; [|discriminate].
+  unfold unexpired. destruct (now s <? sr_exp r) eqn:E; [|discriminate].
+  intro H. inversion H. exists r. repeat split. apply Z.ltb_lt. exact E.
+Qed.
